@@ -236,6 +236,7 @@ def run_history(framing: str, ops: list[Any]) -> dict[str, Any]:
         # reference dispatcher
         ref_active: dict[str, tuple[list[int], str]] = {}
         removers: dict[str, Any] = {}
+        cbs: dict[str, Any] = {}
         calls: list[tuple[int, str, int]] = []   # (message number, subscriber name, key)
         msg_no = [0]
         problems: list[str] = []
@@ -268,8 +269,17 @@ def run_history(framing: str, ops: list[Any]) -> dict[str, Any]:
                 _, name, tys, beh = op
                 if name in removers:
                     continue
-                removers[name] = conn.add_message_callback(make_cb(name, beh), tuple(classes[t] for t in tys))
+                cbs[name] = make_cb(name, beh)
+                removers[name] = conn.add_message_callback(cbs[name], tuple(classes[t] for t in tys))
                 ref_active[name] = (tys, beh)
+            elif op[0] == "resub":
+                # the SAME subscriber registered again for the types it already has (the identical callable passed a second time, or one type listed
+                # twice): it is still one subscriber - every message reaches it exactly once
+                _, name, how = op
+                if name in removers and name in ref_active:
+                    tys = ref_active[name][0]
+                    tt = tuple(classes[t] for t in tys)
+                    conn.add_message_callback(cbs[name], tt + tt[:1] if how == "type-twice" else tt)
             elif op[0] == "unsub":
                 if op[1] in removers:
                     removers.pop(op[1])()
@@ -341,6 +351,8 @@ def gen_history(rng: Any) -> list[Any]:
         else:
             beh = f"add:{1 - tys[0]}"
         ops.append(["sub", n, tys, beh])
+    if rng.random() < 0.2:
+        ops.append(["resub", rng.choice(names), rng.choice(["same-callable", "type-twice"])])
     for _ in range(rng.randint(2, 8)):
         r = rng.random()
         if r < 0.6:
